@@ -551,6 +551,171 @@ def check_C02(run):
                                '4096 + 256 x input length, destination inspected and re-read; ASan/UBSan build as sensor')
 
 
+# ===========================================================================
+# C16 / C17: readers and writers as automata (IO.tla)
+
+
+def io_size(n):
+    return n if n >= 0 else {"huge": -n}
+
+
+def io_ops(seq, side, k):
+    ops = []
+    for j, c in enumerate(seq):
+        o = {"op": c["op"], "n": io_size(c["n"])}
+        if side == "w":
+            o["pad"] = (0x00, 0xAA, 0xFF)[(k + j) % 3]
+            o["seed"] = (17 * (k + 1) + 29 * j) % 251
+        ops.append(o)
+    return ops
+
+
+def key_io(prop):
+    def fn(ev, why, cmd=None):
+        if ev.get("e") != "IO":
+            return abnormal_key(prop, ev, why, cmd)
+        k = '%s|IO|%s|%s|%s' % (prop, ev.get("side"), ev.get("kind"), ','.join(why))
+        return k, 'call sequence on %s%s %s (%s) violates: %s (command %s)' % (
+            'Bounded over ' if ev.get("bounded") else '', ev.get("kind"), 'reader' if ev.get("side") == 'r' else 'writer',
+            'direct' if ev.get("direct") else 'instrumented', ', '.join(why), ev.get("idx"))
+    return fn
+
+
+def run_io(run, prop, cmds, flavour='plain'):
+    exe, types_path = vf.get_exe(run, flavour)
+    trace = vf.exec_commands(run, exe, cmds, prop.lower() + flavour)
+    rejected = vf.tlc_validate(run, 'TrIO', 'TrCodec.cfg', trace, {"PROP": prop})
+    add_rejections(run, rejected, key_io(prop), index_cmds(cmds))
+
+
+def gen_sequences(run, depth_full, depth_sample, nsample, rng):
+    """TLC-generated call sequences: all of length depth_full, a sample of length depth_sample."""
+    out = {}
+    for side in ("r", "w"):
+        full = vf.tlc_generate(run, 'Gen_IO', {"Side": side, "Depth": depth_full})
+        more = vf.tlc_generate(run, 'Gen_IO', {"Side": side, "Depth": depth_sample})
+        rng.shuffle(more)
+        out[side] = (full, more[:nsample])
+    return out
+
+
+def random_sequences(rng, side, count, length):
+    ops = ["ensure", "r1", "rn", "skip", "pad"] if side == "r" else ["prepare", "w1", "wn", "skipw", "padw"]
+    seqs = []
+    for _ in range(count):
+        s = []
+        for _ in range(length):
+            op = rng.choice(ops)
+            n = rng.choice([0, 1, 1, 2, 3, 4, 5, 8, 9, -1, -2, -9])
+            if op in ("r1", "w1", "pad", "padw"):
+                n = 1
+            if op in ("rn", "wn") and n < 0:
+                n = 2
+            s.append({"op": op, "n": n})
+        seqs.append(s)
+    return seqs
+
+
+def check_C16(run):
+    thorough = run.tier == 'thorough'
+    rng = random.Random(run.seed)
+    fut = [start_model_check(run, 'MC_IO', 'MC_IO_%s.cfg' % s, workers=8, label='io' + s) for s in ("r", "w")]
+    seqs = gen_sequences(run, 2, 3, 6000 if thorough else 1500, rng)
+    cmds = []
+    k = 0
+    for side in ("r", "w"):
+        full, sample = seqs[side]
+        kinds = ["pedantic", "buffer", "sstream", "fd"] if side == "r" else ["pedantic", "buffer", "constexpr", "sstream", "fd"]
+        configs = [(kind, lim, ln, fk) for kind in kinds for lim in range(0, 6) for ln in (0, 1, 3, 4) for fk in (0, 1, 2)]
+        def emit(seq, cfg):
+            nonlocal k
+            kind, lim, ln, fk = cfg
+            if kind == "fd" and any(c["op"] in ("skip", "pad", "skipw", "padw") for c in seq):
+                return
+            c = {"c": "io", "side": side, "kind": kind, "bounded": True, "direct": False, "limit": lim,
+                 "ops": io_ops(seq, side, k)}
+            if side == "r":
+                c["src"] = [(16 + 7 * i) % 256 for i in range(ln)]
+            else:
+                c["cap"] = ln
+            if fk:
+                c["fault"] = {"k": fk, "e": (16, 14, 17)[k % 3]}
+            cmds.append(c)
+            k += 1
+        # every sequence of length 2 under every configuration (limit x source length / capacity x failing call)
+        for seq in full:
+            for cfg in (configs if thorough else configs[k % 3::3]):
+                emit(seq, cfg)
+        # sampled sequences of length 3 and random longer ones, rotating configurations
+        for seq in sample + random_sequences(rng, side, 3000 if thorough else 600, 12):
+            for j in range(3 if thorough else 1):
+                emit(seq, configs[(k * 7 + j) % len(configs)])
+    cmds = with_resets(cmds, 200)
+    run.samples = [c for c in cmds if c.get("c") == "io"][:2] + [c for c in cmds if c.get("side") == "w"][:1]
+    run.distinct = set(vf.digest(c) for c in cmds)
+    run_io(run, 'C16', cmds)
+    for f in fut:
+        f.result()
+    return vf.finish(run, rule='TLC-generated call sequences (all of length 2, sampled of length 3) and random sequences of '
+                               'length 12 over sizes {0,1,2,3,5,2^64-1,2^64-2,...} on BoundedReader/BoundedWriter over an '
+                               'instrumented wrapped object (every kind) x limits 0..5 x source length/capacity x failing '
+                               'call position; distinct = distinct commands')
+
+
+def check_C17(run):
+    thorough = run.tier == 'thorough'
+    rng = random.Random(run.seed)
+    fut = [start_model_check(run, 'MC_IO', 'MC_IO_%s.cfg' % s, workers=8, label='io' + s) for s in ("r", "w")]
+    seqs = gen_sequences(run, 2, 3, 4000 if thorough else 1000, rng)
+    cmds = []
+    k = 0
+    for side in ("r", "w"):
+        full, sample = seqs[side]
+        kinds = ["pedantic", "buffer", "sstream", "fstream", "fd"] if side == "r" else ["pedantic", "buffer", "constexpr", "sstream", "fd"]
+        lens = (0, 1, 2, 3, 4, 6) if side == "r" else (0, 1, 2, 3, 4, 6)
+        allseqs = list(full) + list(sample) + random_sequences(rng, side, 2000 if thorough else 500, 10)
+        for seq in allseqs:
+            for ln in (lens if (thorough or len(seq) <= 2) else (lens[k % 6],)):
+                for kind in kinds:
+                    for bounded in (False, True):
+                        if kind == "fd" and any(c["op"] in ("skip", "pad", "skipw", "padw") for c in seq):
+                            continue
+                        if not bounded and any(c["op"] in ("pad", "padw") for c in seq):
+                            continue
+                        # an unbounded sink asked to skip ~2^64 bytes legitimately never finishes
+                        if kind in ("sstream", "fd") and side == "w" and any(c["op"] == "skipw" and c["n"] < 0 for c in seq):
+                            continue
+                        if bounded and (k % 4) and len(seq) > 2:
+                            k += 1
+                            continue
+                        ops = io_ops(seq, side, k)
+                        # element widths 1/2/4/8 on block transfers whose size is a multiple of the width
+                        for o in ops:
+                            if o["op"] in ("rn", "wn") and isinstance(o["n"], int):
+                                for wdt in (8, 4, 2):
+                                    if o["n"] and o["n"] % wdt == 0 and (k + o["n"]) % 2 == 0:
+                                        o["w"] = wdt
+                                        break
+                        c = {"c": "io", "side": side, "kind": kind, "bounded": bounded, "direct": True,
+                             "limit": (k % 7) if bounded else 0, "ops": ops}
+                        if side == "r":
+                            c["src"] = [(33 + 5 * i) % 256 for i in range(ln)]
+                        else:
+                            c["cap"] = ln
+                        cmds.append(c)
+                        k += 1
+    cmds = with_resets(cmds, 200)
+    run.samples = [c for c in cmds if c.get("c") == "io"][:2] + [c for c in cmds if c.get("side") == "w"][:1]
+    run.distinct = set(vf.digest(c) for c in cmds)
+    run_io(run, 'C17', cmds)
+    for f in fut:
+        f.result()
+    return vf.finish(run, rule='the same TLC-generated and random call sequences executed directly on every reader '
+                               '(BufferReader, PedanticBufferReader, StreamReader over stringstream and ifstream, FdReader, '
+                               'BoundedReader over each) and every writer (Buffer within capacity, Pedantic, Constexpr, Stream, '
+                               'Fd, BoundedWriter over each), element widths 1/2/4/8; distinct = distinct commands')
+
+
 def replay(run, path):
     with open(path) as f:
         rp = json.load(f)
